@@ -3,6 +3,7 @@ package main
 // More standard-library models.
 
 import (
+	"fmt"
 	"go/constant"
 	"go/token"
 	"go/types"
@@ -293,4 +294,56 @@ func (r *Runner) pureIfaceMethod(iface, method string) bool {
 		}
 	}
 	return false
+}
+
+// ifaceVersion: a ghost counter per interface type, bumped whenever a method that is not declared
+// read-only is invoked; results of read-only methods are functions of (version, receiver, arguments).
+func (r *Runner) ifaceVersion(st *State, iface string) Term {
+	k := "ifver:" + iface
+	if t, ok := st.ghost[k]; ok {
+		return t
+	}
+	t := Sym("ifver_"+sanitize(iface)+"@entry", SInt)
+	st.ghost[k] = t
+	return t
+}
+
+func (r *Runner) bumpIfaceVersion(st *State, iface string) {
+	st.ghost["ifver:"+iface] = Fresh("ifver", SInt)
+}
+
+func contentArgs(st *State, vs []Val) []Term {
+	var as []Term
+	for _, a := range vs {
+		switch {
+		case a.T != nil && isSlice(a.T) && len(layout(elemOf(a.T))) == 1:
+			as = append(as, st.backingArr(a, elemOf(a.T), 0), a.C[1], a.C[2])
+		default:
+			as = append(as, a.C...)
+		}
+	}
+	return as
+}
+
+// pureIfaceCall: a read-only interface method. Its result is an uninterpreted function of the
+// object's version, the receiver and the arguments (so repeated reads agree), nothing is modified.
+func (r *Runner) pureIfaceCall(st *State, f *Frame, iface, method string, recv Val, args []Val, res ssa.Value) {
+	if res == nil {
+		return
+	}
+	out := r.pureIfaceResult(st, iface, method, recv, args, res.Type())
+	st.assumeRange(out)
+	st.assumeLoadedRefs(out)
+	f.regs[res] = out
+}
+
+func (r *Runner) pureIfaceResult(st *State, iface, method string, recv Val, args []Val, rt types.Type) Val {
+	as := append([]Term{r.ifaceVersion(st, iface)}, recv.C...)
+	as = append(as, contentArgs(st, args)...)
+	ls := layout(rt)
+	out := Val{T: rt, C: make([]Term, len(ls))}
+	for k, l := range ls {
+		out.C[k] = uf(fmt.Sprintf("im_%s_%d", sanitize(method), k), l.Sort, as...)
+	}
+	return out
 }
